@@ -61,6 +61,7 @@ func (c *containerServer) handleExecve(cmd *execCmd, msg unixsocket.Msg) error {
 		cmd.Argv[0] = exePath
 	}
 
+	synced := false
 	syncPid := func(pid int) error {
 		msg := unixsocket.Msg{
 			Cred: &syscall.Ucred{
@@ -79,6 +80,7 @@ func (c *containerServer) handleExecve(cmd *execCmd, msg unixsocket.Msg) error {
 		if cmd.Cmd == cmdKill {
 			return fmt.Errorf("sync func: received kill")
 		}
+		synced = true
 		return nil
 	}
 	var syncFunc func(pid int) error
@@ -124,7 +126,16 @@ func (c *containerServer) handleExecve(cmd *execCmd, msg unixsocket.Msg) error {
 		if len(cmd.Argv) > 0 {
 			s = cmd.Argv[0]
 		}
-		return c.sendErrorReply("start: %s: %v", s, err)
+		if err := c.sendErrorReply("start: %s: %v", s, err); err != nil {
+			return err
+		}
+		if synced {
+			// the host has been told to go on, it sends kill when it sees this reply: consume it
+			if _, _, err := c.recvCmd(); err != nil {
+				return err
+			}
+		}
+		return nil
 	}
 	if cmd.SyncAfter {
 		if err := syncPid(1); err != nil {
